@@ -15,10 +15,13 @@ TRACK_TUS = ["src/celeritas/track/ExtendFromSecondariesAction.cc",
              "src/celeritas/track/InitializeTracksAction.cc",
              "src/celeritas/track/ExtendFromPrimariesAction.cc",
              "src/celeritas/track/detail/TrackInitAlgorithms.cc",
-             "src/celeritas/global/CoreState.cc"]
+             "src/celeritas/global/CoreState.cc",
+             # resize(CoreStateData*): instantiates TrackInitData.hh / SimData.hh / PhysicsData.hh resize
+             "src/celeritas/global/CoreTrackData.cc",
+             # the pre-step action driven by the harness (PreStepExecutor.hh: per-step clear of the secondary stack)
+             "src/celeritas/phys/detail/PreStepAction.cc"]
 STEPPER_TUS = TRACK_TUS + ["src/celeritas/global/Stepper.cc",
-                           "src/celeritas/em/model/KleinNishinaModel.cc",
-                           "src/celeritas/phys/detail/PreStepAction.cc"]
+                           "src/celeritas/em/model/KleinNishinaModel.cc"]
 
 
 def _fresh(obj, dep):
